@@ -64,18 +64,24 @@ def part_descs(draw, ndim, min_entries=2):
     desc = [(n, "d") for n in names] + extra
     if draw(st.booleans()):
         desc = list(draw(st.permutations(desc)))
+    if draw(st.integers(0, 3)) == 0:
+        # a dimensional variable stored as integer or byte ("whatever its on-disk type")
+        cand = [i for i, (n, t) in enumerate(desc) if t == "d" and (n == "mass" or n.startswith("velocity_") or n == "birth_time")]
+        if cand:
+            i = cand[draw(st.integers(0, len(cand) - 1))]
+            desc[i] = (desc[i][0], draw(st.sampled_from(["i", "b"])))
     for cand in [("mass", "d"), ("identity", "i"), ("family", "b")]:
         if len(desc) >= min_entries:
             break
-        if cand not in desc:
+        if cand[0] not in [n for n, _ in desc]:
             desc.append(cand)
     return [list(x) for x in desc[:12]]
 
 
 SINK_CODE_UNITS = ["1", "m", "l", "t", "l t**-1", "m l**-3", "m l**2 t**-2", "m t**-1", "l**2 t**-1"]
-SINK_LEGACY_UNITS = ["[1]", "[g]", "[cm]", "[km/s]", "[yr]", "[M_sun]", "[au]", "[cm/s]"]
+SINK_LEGACY_UNITS = ["[1]", "[g]", "[cm]", "[km/s]", "[yr]", "[M_sun]", "[au]", "[cm/s]", "[m]", "[m/s]", "[kg]"]
 LEGACY_MODEL = {"[1]": "dimensionless", "[g]": "g", "[cm]": "cm", "[km/s]": "km/s", "[yr]": "yr", "[M_sun]": "M_sun",
-                "[au]": "au", "[cm/s]": "cm/s"}
+                "[au]": "au", "[cm/s]": "cm/s", "[m]": "m", "[m/s]": "m/s", "[kg]": "kg"}      # [m] is the metre, not the code mass
 
 
 @st.composite
